@@ -22,16 +22,19 @@ from . import env
 from .core import Decider, HarnessError, Violation, canon, derive_seed, jsonable
 
 CHECKS = {
+    "C04": "phaseless_step",
+    "C05": "free_step",
     "C07": "sr_world",
     "C08": "coherence",
     "C09": "weights_invariants",
+    "C10": "cpmc_step",
     "C12": "sampler_matrix",
     "C14": "lockstep",
 }
 
 KNOWN_FINDINGS_FILE = os.path.join(env.VERIF_ROOT, "known_findings.json")
 REPLAY_DIR = os.path.join(env.VERIF_ROOT, "replays")
-EVIDENCE_DIR = os.path.join(env.VERIF_ROOT, "evidence")
+EVIDENCE_DIR = os.environ.get("VERIF_EVIDENCE_DIR") or os.path.join(env.VERIF_ROOT, "evidence")
 
 
 def load_check(pid):
